@@ -19,7 +19,7 @@ pub use kvs::{KeyValueStore, WriteBatch};
 #[cfg(blue_verif)]
 pub use kvs::VerifState;
 #[cfg(blue_verif)]
-pub use tree::VerifCompaction;
+pub use tree::{VerifCompaction, VersionRef, verif_set_point_hook};
 pub use tree::{CompactionID, LsmTree, NUM_LEVELS};
 pub use verifier::{LsmVerifier, ManifestVerifier};
 
